@@ -6,8 +6,7 @@ From Ink.Gen Require Import PathGen.
 
 Section Api.
 Variable I : iface.
-Variable alias_current : bool.       (* regenerated: copy_and_start_patching inserts the current flow *)
-Variable warnings_cleared : bool.    (* regenerated: reset_errors clears warnings too *)
+Variable sw : switches.
 
 Definition DEFAULT_FLOW : text := T "DEFAULT_FLOW".
 
@@ -20,7 +19,7 @@ Definition if_async_we_cant : M unit :=
   let* a := gets w_async in
   if a then fail InvalidState "Can't do that. Story is in the middle of a continue_async()." else ret tt.
 
-Definition cont_internal := continue_internal I alias_current warnings_cleared.
+Definition cont_internal := continue_internal I sw.
 
 (* Story::reset_globals *)
 Definition reset_globals : M unit :=
@@ -29,7 +28,7 @@ Definition reset_globals : M unit :=
     (match lookup_named root (T "global decl") with
      | Some _ =>
          let* orig := m_read ss_cur_pointer in
-         let* _ := choose_path I (path_of_string_gen cache_input (Some (T "global decl"))) false in
+         let* _ := choose_path I sw (path_of_string_gen cache_input (Some (T "global decl"))) false in
          let* _ := cont_internal false in
          m_state_res (fun s => ss_set_cur_pointer s orig)
      | None => ret tt
@@ -161,9 +160,17 @@ Definition choose_choice_index (i : nat) : M unit :=
       | None => panic "choices.rs:choose_choice_index:get_thread_at_generation().unwrap()"
       | Some th =>
           let* _ := mod_state (fun s => ss_set_cs s (cs_set_current_thread (ss_cs s) th)) in
-          choose_path I (ch_target c) true
+          choose_path I sw (ch_target c) true
       end
   end.
+
+(* StoryState::validate_arguments *)
+Definition validate_arguments (args : list value) : M unit :=
+  mfor args (fun a =>
+    match a with
+    | VBool _ | VInt _ | VFloat _ | VList _ | VString _ => ret tt
+    | _ => fail InvalidState "ink arguments when calling EvaluateFunction / ChoosePathStringWithParameters must be int, float, string, bool or InkList."
+    end).
 
 (* pass_arguments_to_evaluation_stack *)
 Definition pass_arguments (args : list value) : M unit :=
@@ -175,6 +182,11 @@ Definition pass_arguments (args : list value) : M unit :=
 
 Definition choose_path_string (p : text) (reset_cs : bool) (args : list value) : M unit :=
   let* _ := if_async_we_cant in
+  let target := path_of_string_gen cache_input (Some p) in
+  let* _ := when (sw_path_validated_first sw)
+              (let* root := gets root_of in
+               let* _ := lift (pointer_at_path root target) in
+               validate_arguments args) in
   let* _ :=
     (if reset_cs then
        (* reset_callstack *)
@@ -185,7 +197,7 @@ Definition choose_path_string (p : text) (reset_cs : bool) (args : list value) :
        then fail InvalidState "Story was running a function when you called ChoosePathString"
        else ret tt) in
   let* _ := pass_arguments args in
-  choose_path I (path_of_string_gen cache_input (Some p)) true.
+  choose_path I sw target true.
 
 Fixpoint eval_loop (fuel : nat) (acc : text) : M text :=
   match fuel with
@@ -233,6 +245,8 @@ Definition evaluate_function (name : text) (args : option (list value)) : M (opt
   match knot_container_with_name root name with
   | None => fail BadArgument "Function doesn't exist"
   | Some fp =>
+      let* _ := when (sw_eval_args_first sw)
+                  (validate_arguments (match args with Some a => a | None => [] end)) in
       let* s := get_state in
       let before := ss_out s in
       let* _ := mod_state (reset_output []) in
@@ -276,11 +290,10 @@ Fixpoint remove_first_text (x : text) (l : list text) : option (list text) :=
 (* remove_variable_observer: `position(..).unwrap()` panics when the observer
    is not registered for the variable.  [checked] is the regenerated fact that
    the code tests membership instead of unwrapping (after repair). *)
-Variable observer_removal_checked : bool.
 Definition remove_observer_from (obs : text) (m : list (text * list text)) (k : text) (l : list text)
   : Res (list (text * list text)) :=
   match remove_first_text obs l with
-  | None => if observer_removal_checked then Ok m
+  | None => if sw_observer_removal_checked sw then Ok m
             else Panic (T "variable_observer.rs:remove_variable_observer:position().unwrap()")
   | Some [] => Ok (assoc_remove k m)
   | Some l' => Ok (assoc_set k l' m)
@@ -321,14 +334,13 @@ Definition switch_to_default_flow : M unit := mod_state switch_to_default_flow_i
 
 (* remove_flow_internal: `self.named_flows.as_mut().unwrap()`.  [checked] is the
    regenerated fact that the code no longer unwraps a missing map. *)
-Variable remove_flow_checked : bool.
 Definition remove_flow (name : text) : M unit :=
   if text_eqb name DEFAULT_FLOW then fail BadArgument "Cannot destroy default flow" else
   let* _ := mod_state (fun s => if text_eqb (fl_name (ss_flow s)) name
                                 then switch_to_default_flow_internal s else s) in
   let* s := get_state in
   match ss_named s with
-  | None => if remove_flow_checked then ret tt
+  | None => if sw_remove_flow_checked sw then ret tt
             else panic "story_state.rs:remove_flow_internal:named_flows.unwrap()"
   | Some nf => mod_state (fun s => s <| ss_named := Some (assoc_remove name nf) |>)
   end.
